@@ -152,14 +152,13 @@ Theorem C13_outputs_are_entries :
     load_database fs cwd rootdir es = Ok (o, w) -> In x o ->
     exists e f a, In e es /\ e_file e = Some f /\ e_argv e = Some a /\
       o_file x = file_path cwd (filedir cwd rootdir (e_dir e)) f /\
-      exists incs, extract_incs (tl a) = Ok incs /\
-        o_incs x = map (inc_path cwd (filedir cwd rootdir (e_dir e))) incs.
+      o_incs x = map (inc_path cwd (filedir cwd rootdir (e_dir e))) (extract_incs (tl a)).
 Proof. exact only_named_files. Qed.
 Print Assumptions C13_outputs_are_entries.
 
 (* ---- the whole database: M = S ---- *)
 (* For every well-formed tree, absolute working directory and database that S
-   is defined on (every object has `file` and a command argparse accepts):
+   is defined on (every object has `file` and a command):
    load_database succeeds; reading its strings back as locations gives exactly
    the (file, include directories) S assigns to the analysed entries, in
    order; and its warnings are exactly S's skips, in order, plus the final
